@@ -437,7 +437,7 @@ inductive Op where
   | chmod (p : List Name) (mode : Nat)
   | touch (p : List Name) (mtime : Nat)
   | write (p : List Name) (off : Nat) (b : Bytes) (sync : Bool)
-  | trunc (p : List Name) (size : Nat)
+  | trunc (p : List Name) (size : Nat) (sync : Bool)
   | read (p : List Name)
   | flush (p : List Name)
   | stat (p : List Name)
@@ -472,7 +472,7 @@ def opR (cmpNames : Bool) : Op → L → R Out
   | .chmod p mode, root => (atPath p (actSetMeta fun m => { m with mode := mode }) root).out fun _ => .unit
   | .touch p mt, root => (atPath p (actSetMeta fun m => { m with mtime := mt }) root).out fun _ => .unit
   | .write p off b sync, root => (atPath p (actWrite sync (writeAt off b)) root).out fun _ => .unit
-  | .trunc p size, root => (atPath p (actWrite true (truncTo size)) root).out fun _ => .unit
+  | .trunc p size sync, root => (atPath p (actWrite sync (truncTo size)) root).out fun _ => .unit
   | .read p, root => (atPath p actRead root).out .bytes
   | .flush p, root => (atPath p actFlush root).out fun _ => .unit
   | .stat p, root => (atPath p actStat root).out .stat
